@@ -1099,4 +1099,122 @@ theorem fdrive_stable (T : Table) (hT : TimerOk T) (B : Nat)
         (by omega) k
       simp only [h1, h2, and_self]
 
+/-! ### `Close()` inside the fair run -/
+
+/-- Any number of transitions of the scheduler keeps the invariants, and the transitions taken plus
+    the measure left are within the measure at the start. -/
+theorem fdrive_inv (T : Table) (hT : TimerOk T) (B : Nat)
+    (hB : ∀ ps i, (VaxisModel.Model.Parser.step T ps i).out.length ≤ B) (cap : Nat) (pol : Policy) :
+    ∀ (n : Nat) (s : FCSys) (sc : List Inp), CI cap s → E s.f sc →
+      CI cap (fdrive T cap pol n s sc) ∧ E (fdrive T cap pol n s sc).f (frest T cap pol n s sc) ∧
+      (ftrace T cap pol n s sc).length + mu B (fdrive T cap pol n s sc) (frest T cap pol n s sc) ≤ mu B s sc
+  | 0, s, sc, hci, hE => ⟨hci, hE, by simp [ftrace, fdrive, frest]⟩
+  | n + 1, s, sc, hci, hE => by
+    simp only [fdrive, frest, ftrace]
+    cases hfe : firstEnabled T cap s (cands pol s sc) with
+    | none => exact ⟨hci, hE, by simp⟩
+    | some res =>
+      obtain ⟨l, s'⟩ := res
+      obtain ⟨hmem, hstep⟩ := firstEnabled_some T cap s _ l s' hfe
+      have hal := cands_allowed pol s sc l hmem
+      have hdec := step_dec T B hB cap s s' l sc hstep hal
+      obtain ⟨h1, h2, h3⟩ := fdrive_inv T hT B hB cap pol n s' (consume sc l) (step_proj T hT cap s s' l hci hstep).1
+        (E_fc_step T cap s s' l sc hE hstep hal)
+      refine ⟨h1, h2, ?_⟩
+      simp only [List.length_cons]
+      omega
+
+theorem close_step (T : Table) (cap : Nat) (s : FCSys) : FCSys.step T cap s (.stmt .closeSig) = some (closeOf s) := by
+  simp [FCSys.step, FSys.step, isMainL, closeOf]
+
+theorem E_close (s : FCSys) (sc : List Inp) (hE : E s.f sc) : E (closeOf s).f sc :=
+  ⟨hE.dc, fun h => ⟨(hE.e1 h).1, Or.inl rfl⟩, hE.e2⟩
+
+theorem mu_close_eq (B : Nat) (s : FCSys) (sc : List Inp) : mu B (closeOf s) sc = mu B s sc := rfl
+
+theorem readsOf_append (l1 l2 : List FCLabel) : readsOf (l1 ++ l2) = readsOf l1 ++ readsOf l2 := by
+  induction l1 with
+  | nil => rfl
+  | cons l ls ih =>
+    cases l with
+    | send => simpa [readsOf] using ih
+    | recv => simpa [readsOf] using ih
+    | stmt fl => cases fl <;> simp [readsOf, ih]
+
+theorem closeReq_step (T : Table) (f f' : FSys) (l : FLabel) (o : List Seq) (hc : f.closeReq = true)
+    (h : FSys.step T f l = some (f', o)) : f'.closeReq = true := by
+  by_cases hr : f.mpc = .inRead
+  · cases l with
+    | closeSig => simp only [FSys.step, Option.some.injEq, Prod.mk.injEq] at h; rw [← h.1]
+    | readRet i =>
+      simp only [FSys.step, hr, if_true, Option.some.injEq, Prod.mk.injEq] at h
+      rw [← h.1]; exact hc
+    | expire =>
+      simp only [FSys.step] at h
+      split at h
+      · simp only [Option.some.injEq, Prod.mk.injEq] at h; rw [← h.1]; exact hc
+      · cases h
+    | cb i => obtain ⟨_, h2, _, _⟩ := cbStep_frame f f' i o h; rw [h2]; exact hc
+    | main => simp [FSys.step, mainStep, hr] at h
+  · exact (noRead_step T f f' l o ⟨hc, hr⟩ h).1
+
+/-- **After `Close()` at most one read returns — in every schedule**: the pending one, if the main
+    goroutine is blocked in the read; none otherwise. -/
+theorem reads_after_close (T : Table) (cap : Nat) : ∀ (ls : List FCLabel) (s s' : FCSys), s.f.closeReq = true →
+    FCSys.run T cap s ls = some s' → (readsOf ls).length ≤ (if s.f.mpc = .inRead then 1 else 0)
+  | [], _, _, _, _ => by simp [readsOf]
+  | l :: ls, s, s', hc, h => by
+    simp only [FCSys.run] at h
+    cases hs : FCSys.step T cap s l with
+    | none => rw [hs] at h; cases h
+    | some s1 =>
+      rw [hs] at h
+      have hf := fc_step_f T cap s s1 l hs
+      cases l with
+      | send =>
+        simp only at hf
+        have := reads_after_close T cap ls s1 s' (by rw [hf]; exact hc) h
+        rw [hf] at this; simpa [readsOf] using this
+      | recv =>
+        simp only at hf
+        have := reads_after_close T cap ls s1 s' (by rw [hf]; exact hc) h
+        rw [hf] at this; simpa [readsOf] using this
+      | stmt fl =>
+        obtain ⟨o, ho⟩ := hf
+        have hc1 := closeReq_step T s.f s1.f fl o hc ho
+        have ih := reads_after_close T cap ls s1 s' hc1 h
+        cases fl with
+        | readRet i =>
+          simp only [FSys.step] at ho
+          split at ho
+          · rename_i hpc
+            simp only [Option.some.injEq, Prod.mk.injEq] at ho
+            have : s1.f.mpc = .readDone i := by rw [← ho.1]
+            rw [this] at ih
+            have ih' : (readsOf ls).length ≤ 0 := by simpa using ih
+            simp only [readsOf, List.length_cons, hpc, if_true]
+            omega
+          · cases ho
+        | closeSig =>
+          have hm : s1.f.mpc = s.f.mpc := by
+            simp only [FSys.step, Option.some.injEq, Prod.mk.injEq] at ho; rw [← ho.1]
+          rw [hm] at ih; simpa [readsOf] using ih
+        | main =>
+          have hnr : s1.f.mpc ≠ .inRead := by
+            by_cases hr : s.f.mpc = .inRead
+            · simp [FSys.step, mainStep, hr] at ho
+            · exact (noRead_step T s.f s1.f .main o ⟨hc, hr⟩ ho).2
+          simp only [hnr, if_false] at ih
+          simp only [readsOf]; omega
+        | expire =>
+          have hm : s1.f.mpc = s.f.mpc := by
+            simp only [FSys.step] at ho
+            split at ho
+            · simp only [Option.some.injEq, Prod.mk.injEq] at ho; rw [← ho.1]
+            · cases ho
+          rw [hm] at ih; simpa [readsOf] using ih
+        | cb j =>
+          have hm : s1.f.mpc = s.f.mpc := (cbStep_frame s.f s1.f j o ho).1
+          rw [hm] at ih; simpa [readsOf] using ih
+
 end VaxisModel.Lemmas.ParserRunFineFair
